@@ -746,6 +746,17 @@ def cycle_family():
                 'init': ['s', 'a.do', 'b.do', 'top.do'],
                 'cmds': [('ifchange', ['a'], False, 1), ('ifchange', ['top'], False, 1), ('redo', ['a'], False, 2)],
                 'user': [], 'rm': [], 'doedits': ['b.do'], 'bounds': (3, 2), 'skip_invariants': ['CycleReported']})
+    # a cycle that arises from data: T asks for what its (checksummed) list names; after an edit the list names X, whose
+    # rule asks for T.  T is then rebuilt through redo-unlocked (only its checksummed dependency is uncertain), i.e. by a
+    # process that owns T's lock by proxy
+    fam.append({'name': 'cyc_unlocked', 'plain': ['s', 'lst', 'T', 'X'],
+                'rules': {'lst.do': [{'lst': [ifchange('s'), out('stdout', 's'), stamp()]}],
+                          'T.do': [{'T': [ifchange('lst'), {'op': 'ifchangeif', 'args': ['lst', 's', 'X'], 'ch': '', 'rc': 0},
+                                          out('stdout', 'lst')]}],
+                          'X.do': [{'X': [ifchange('T'), out('stdout', 'T')]}]},
+                'init': ['s', 'lst.do', 'T.do', 'X.do'],
+                'cmds': [('ifchange', ['T'], False, 1), ('redo', ['T'], False, 2)],
+                'user': ['s'], 'rm': [], 'doedits': [], 'bounds': (3, 2), 'skip_invariants': ['CycleReported']})
     return [complete(p) for p in fam]
 
 
